@@ -29,8 +29,8 @@ import (
 	"github.com/pingcap/kvproto/pkg/pdpb"
 
 	"pdverif/internal/coqfmt"
-	"pdverif/internal/pdcluster"
 	"pdverif/internal/etcdx"
+	"pdverif/internal/pdcluster"
 	"pdverif/internal/res"
 	"pdverif/internal/rng"
 )
@@ -41,17 +41,18 @@ type RV struct {
 }
 
 type Op struct {
-	K   string // savestore delstore saveweight loadstores saveregion delregion flush switch crash reopen budget loadregions loadonce loadcache
-	ID  uint64 `json:",omitempty"`
-	P   int64  `json:",omitempty"` // payload / budget (-1 = none) / switch flag
-	LW  int64  `json:",omitempty"`
-	RW  int64  `json:",omitempty"`
-	V   *RV    `json:",omitempty"`
-	Sz  int    `json:",omitempty"` // marshalled size, filled when run
-	Ap  bool   `json:",omitempty"` // fault ops: the write was applied although the call returned an error; crashinflush: the batch was written
-	Stg int    `json:",omitempty"` // saveweightf: 0 = the leader-weight write fails, 1 = the region-weight write
+	K      string   // savestore delstore saveweight loadstores saveregion delregion flush switch crash reopen budget loadregions loadonce loadcache
+	ID     uint64   `json:",omitempty"`
+	P      int64    `json:",omitempty"` // payload / budget (-1 = none) / switch flag
+	LW     int64    `json:",omitempty"`
+	RW     int64    `json:",omitempty"`
+	V      *RV      `json:",omitempty"`
+	Sz     int      `json:",omitempty"` // marshalled size, filled when run
+	Ap     bool     `json:",omitempty"` // fault ops: the write was applied although the call returned an error; crashinflush: the batch was written
+	Stg    int      `json:",omitempty"` // saveweightf: 0 = the leader-weight write fails, 1 = the region-weight write
+	Tmo    bool     `json:",omitempty"` // budget: the injected LoadRange failures look like time-outs ("context deadline exceeded") instead of "too large"
 	Cached []string `json:",omitempty"` // loadwarm: the warm cache before the load (filled when run)
-	Par int    `json:",omitempty"` // flush only: run it in its own goroutine and overlap the next Par ops with it
+	Par    int      `json:",omitempty"` // flush only: run it in its own goroutine and overlap the next Par ops with it
 }
 
 type Case struct {
@@ -75,6 +76,7 @@ func keyNum(b []byte) uint64 {
 	}
 	return binary.BigEndian.Uint64(b[:8])
 }
+
 // one shared slice of filler peers: big values without big memory (the regions only point to it)
 var fillerPeers []*metapb.Peer
 
@@ -165,6 +167,7 @@ func (o Op) coq() string {
 type budgetKV struct {
 	kv.Base
 	budget int64 // < 0: none
+	tmo    bool  // the failure is reported as an expired deadline (a slow store) instead of a too large page
 	calls  int
 	failed int
 	// write faults: the armed-th next Save/Remove returns an error, after having been applied or not
@@ -215,6 +218,9 @@ func (b *budgetKV) LoadRange(key, endKey string, limit int) ([]string, []string,
 		}
 		if n > b.budget {
 			b.failed++
+			if b.tmo {
+				return nil, nil, fmt.Errorf("injected: page of %d bytes took too long: %w", n, context.DeadlineExceeded)
+			}
 			return nil, nil, fmt.Errorf("injected: page of %d bytes exceeds the budget %d", n, b.budget)
 		}
 	}
@@ -222,16 +228,16 @@ func (b *budgetKV) LoadRange(key, endKey string, limit int) ([]string, []string,
 }
 
 type world struct {
-	base    *budgetKV
-	dir     string
-	rs      *core.RegionStorage
-	st      *core.Storage
-	cancel  context.CancelFunc
-	useRS   bool
+	base   *budgetKV
+	dir    string
+	rs     *core.RegionStorage
+	st     *core.Storage
+	cancel context.CancelFunc
+	useRS  bool
 	// mirrors Storage.regionLoaded only to tell "skipped" from "loaded nothing"; reset with the Storage object
 	loadedOnce bool
 	// the process's own BasicCluster (warm cache): filled by the start-up load, updated by "synced" saves; reset with the process
-	bc *core.BasicCluster
+	bc           *core.BasicCluster
 	maxCallbacks int // 3 x everything ever saved + 10
 }
 
@@ -312,12 +318,14 @@ func (w *world) exec(o *Op) string {
 	case "loadstores":
 		var xs []string
 		n := 0
-		st := guarded(func() error { return w.st.LoadStores(func(s *core.StoreInfo) {
-			w.guard(&n)
-			p, _ := strconv.ParseInt(strings.TrimPrefix(s.GetMeta().GetAddress(), "p"), 10, 64)
-			xs = append(xs, fmt.Sprintf("(%s, %s, %s, %s)", coqfmt.ZU(s.GetID()), coqfmt.Z(p),
-				coqfmt.Z(int64(math.Round(s.GetLeaderWeight()*1000))), coqfmt.Z(int64(math.Round(s.GetRegionWeight()*1000)))))
-		}) })
+		st := guarded(func() error {
+			return w.st.LoadStores(func(s *core.StoreInfo) {
+				w.guard(&n)
+				p, _ := strconv.ParseInt(strings.TrimPrefix(s.GetMeta().GetAddress(), "p"), 10, 64)
+				xs = append(xs, fmt.Sprintf("(%s, %s, %s, %s)", coqfmt.ZU(s.GetID()), coqfmt.Z(p),
+					coqfmt.Z(int64(math.Round(s.GetLeaderWeight()*1000))), coqfmt.Z(int64(math.Round(s.GetRegionWeight()*1000)))))
+			})
+		})
 		return "BStores " + st + " " + coqfmt.List(xs)
 	case "saveregion":
 		r := o.V.region(o.ID)
@@ -377,7 +385,7 @@ func (w *world) exec(o *Op) string {
 		}
 		w.openRS()
 	case "budget":
-		w.base.budget = o.P
+		w.base.budget, w.base.tmo = o.P, o.Tmo
 	case "savestoref", "delstoref", "saveweightf", "saveregionf", "delregionf":
 		w.base.armed, w.base.after = 1, o.Ap
 		var err error
@@ -631,11 +639,13 @@ func (w *world) exec(o *Op) string {
 		bc := core.NewBasicCluster()
 		var xs []string
 		n := 0
-		st := guarded(func() error { return w.st.LoadRegions(func(r *core.RegionInfo) []*core.RegionInfo {
-			w.guard(&n)
-			xs = append(xs, coqItem(r.GetMeta()))
-			return bc.CheckAndPutRegion(r)
-		}) })
+		st := guarded(func() error {
+			return w.st.LoadRegions(func(r *core.RegionInfo) []*core.RegionInfo {
+				w.guard(&n)
+				xs = append(xs, coqItem(r.GetMeta()))
+				return bc.CheckAndPutRegion(r)
+			})
+		})
 		rs := bc.GetRegions()
 		sort.Slice(rs, func(i, j int) bool { return rs[i].GetID() < rs[j].GetID() })
 		cs := make([]string, len(rs))
@@ -939,7 +949,7 @@ func genRegions(r *rng.R, k int) Case {
 			per = 700
 		}
 		mult := []int64{40, 110, 160, 320, 700, 3000}[r.Intn(6)]
-		c.Ops = append(c.Ops, Op{K: "budget", P: per * mult})
+		c.Ops = append(c.Ops, Op{K: "budget", P: per * mult, Tmo: r.Bool()})
 	}
 	if rsMode && r.Pct(40) {
 		c.Ops = append(c.Ops, Op{K: "flushfail"})
@@ -1101,8 +1111,13 @@ func fixedCases() []Case {
 	// store weights that float32 cannot hold: more than 7 significant digits, an integer above 2^24
 	precise := Case{Backend: "mem", Ops: []Op{{K: "savestore", ID: 1, P: 1}, {K: "saveweight", ID: 1, LW: 123456789, RW: 16777217000},
 		{K: "savestore", ID: 2, P: 2}, {K: "saveweight", ID: 2, LW: 1099511627775, RW: 1}, {K: "loadstores"}}}
+	slowStore := Case{Backend: "mem"}
+	for i := 0; i < 400; i++ {
+		slowStore.Ops = append(slowStore.Ops, Op{K: "saveregion", ID: uint64(i*3 + 1), V: &RV{Start: uint64(i+1) * 10, End: uint64(i+2) * 10, ConfVer: 1, Version: 1}})
+	}
+	slowStore.Ops = append(slowStore.Ops, Op{K: "budget", P: int64(200 * proto.Size(slowStore.Ops[0].V.region(1))), Tmo: true}, Op{K: "loadregions"}, Op{K: "loadcache"})
 	return []Case{
-		wrap, delBoth, pruneBoth, onceRetry, oncePair, cancelClose, handOver, reelected, flushFault, precise, tick, cif(true), cif(false), faults, raceCase(true), raceCase(false), raceCase(true), raceCase(false),
+		slowStore, wrap, delBoth, pruneBoth, onceRetry, oncePair, cancelClose, handOver, reelected, flushFault, precise, tick, cif(true), cif(false), faults, raceCase(true), raceCase(false), raceCase(true), raceCase(false),
 		// S9 on the stores namespace and on the regions namespace
 		{Backend: "mem", Ops: []Op{{K: "savestore", ID: 1, P: 1}, {K: "savestore", ID: top, P: 2}, {K: "loadstores"}}},
 		{Backend: "mem", Ops: []Op{{K: "saveregion", ID: 1, V: one}, {K: "saveregion", ID: top, V: two}, {K: "loadregions"}}},
@@ -1445,7 +1460,7 @@ func checkGo(R *res.Result, c Case) {
 	top := uint64(math.MaxUint64)
 	wantStores := map[uint64]bool{}
 	wantRegions := map[uint64]bool{}
-	deleted := map[uint64]bool{}  // id -> its save was still unflushed when it was deleted
+	deleted := map[uint64]bool{} // id -> its save was still unflushed when it was deleted
 	isDeleted := map[uint64]bool{}
 	pending := map[uint64]bool{} // region-storage mode: saved since the last explicit flush
 	unsure := map[uint64]bool{}  // an errored write touched this id
